@@ -11,16 +11,42 @@ From GV Require Import Common.Wire.
 Open Scope Q_scope.
 
 (* ---------- how a pixel axis of the source is obtained in the frame of the reference ---------- *)
-(* PixT j : pixel axis j of the reference itself;  Lnk coef const args : link._using applied to translated inputs *)
-Inductive pexpr := PixT (j : nat) | Lnk (coef : list Q) (const : Q) (args : list pexpr).
+(* PixT j                 : pixel axis j of the reference itself;
+   Lnk coef const args    : link._using (an affine function) applied to translated inputs;
+   WorldT terms const ds  : a world coordinate of the reference: sum of c * (pixel axis j) over the listed non-zero terms + const,
+                            reported with the dimensions ds (= dependent_axes(coords, axis), supplied; see wf_exprb);
+   Guard c arg            : a link function that is only defined for inputs >= c (NaN or +-inf elsewhere: log, sqrt, 1/x).
+   A position is an option: None = not a finite number (it propagates through every later link, as NaN does). *)
+Inductive pexpr :=
+  | PixT (j : nat)
+  | Lnk (coef : list Q) (const : Q) (args : list pexpr)
+  | WorldT (terms : list (nat * Q)) (const : Q) (ds : list nat)
+  | Guard (c : Q) (arg : pexpr).
 
 Fixpoint dotq (u v : list Q) : Q :=
   match u, v with a :: u', b :: v' => a * b + dotq u' v' | _, _ => 0 end.
 
-Fixpoint eval (e : pexpr) (pos : nat -> Q) : Q :=
+Fixpoint sequence {A} (l : list (option A)) : option (list A) :=
+  match l with
+  | [] => Some []
+  | None :: _ => None
+  | Some a :: r => match sequence r with Some r' => Some (a :: r') | None => None end
+  end.
+
+Fixpoint eval (e : pexpr) (pos : nat -> Q) : option Q :=
   match e with
-  | PixT j => pos j
-  | Lnk coef const args => dotq coef (map (fun a => eval a pos) args) + const
+  | PixT j => Some (pos j)
+  | Lnk coef const args =>
+    match sequence (map (fun a => eval a pos) args) with
+    | Some vs => Some (dotq coef vs + const)
+    | None => None
+    end
+  | WorldT terms const _ => Some (fold_right (fun jc acc => snd jc * pos (fst jc) + acc) const terms)
+  | Guard c arg =>
+    match eval arg pos with
+    | Some x => if Qle_bool c x then Some x else None
+    | None => None
+    end
   end.
 
 (* sorted(set(...)) *)
@@ -36,9 +62,21 @@ Fixpoint dims (e : pexpr) : list nat :=
   match e with
   | PixT j => [j]
   | Lnk _ _ args => sort_set (flat_map (fun a => dims a) args)
+  | WorldT _ _ ds => ds
+  | Guard _ arg => dims arg
   end.
 
 Definition memn (i : nat) (l : list nat) : bool := existsb (Nat.eqb i) l.
+
+(* the reported dimensions of a world coordinate contain every pixel axis it is computed from
+   (for glue this is C15's dependent_axes_covers_forward) *)
+Fixpoint wf_exprb (e : pexpr) : bool :=
+  match e with
+  | PixT _ => true
+  | Lnk _ _ args => forallb (fun a => wf_exprb a) args
+  | WorldT terms _ ds => forallb (fun jc : nat * Q => memn (fst jc) ds) terms
+  | Guard _ arg => wf_exprb arg
+  end.
 
 (* ---------- bounds and the sample grid ---------- *)
 Inductive bound := BScalar (v : Q) | BRange (lo hi : Q) (n : Z).
@@ -83,10 +121,15 @@ Definition round_half_even (q : Q) : Z :=
 (* what is computed (and cached in PIXEL_CACHE) for one pixel axis of the source *)
 Record triple := mkTriple { tc : list Z; inval : list bool; tdims : list nat }.
 
+(* a non-finite position is cast to the most negative integer by astype(int): invalid *)
+Definition invalid_idx (size : nat) (k : option Z) : bool :=
+  match k with Some z => (z <? 0)%Z || (z >=? Z.of_nat size)%Z | None => true end.
+Definition clamp_idx (size : nat) (k : option Z) : Z :=
+  match k with Some z => if invalid_idx size k then 0%Z else z | None => 0%Z end.
+
 Definition axis_result (e : pexpr) (size : nat) (bs : list bound) : triple :=
-  let raw := map (fun g => round_half_even (eval e (pos_at bs g))) (all_indices (grid_shape bs)) in
-  let inv := map (fun k => (k <? 0)%Z || (k >=? Z.of_nat size)%Z) raw in
-  mkTriple (map (fun k => if ((k <? 0)%Z || (k >=? Z.of_nat size)%Z) then 0%Z else k) raw) inv (dims e).
+  let raw := map (fun g => option_map round_half_even (eval e (pos_at bs g))) (all_indices (grid_shape bs)) in
+  mkTriple (map (clamp_idx size) raw) (map (invalid_idx size) raw) (dims e).
 
 (* ---------- datasets ---------- *)
 Record dataset := mkData { dshape : list nat; dattrs : list (list Z); dmasks : list (list bool) }.
@@ -315,9 +358,14 @@ Definition dec_q (t : tree) : Q :=
 Definition nat_of (t : tree) : nat := Z.to_nat (tag t).
 Definition dec_nats (t : tree) : list nat := map nat_of (kids t).
 
+Definition dec_term (t : tree) : nat * Q :=
+  match t with T _ [T j _; q] => (Z.to_nat j, dec_q q) | _ => (0%nat, 0) end.
+
 Fixpoint dec_expr (t : tree) : pexpr :=
   match t with
   | T 2 [cs; k; T _ args] => Lnk (map dec_q (kids cs)) (dec_q k) (map dec_expr args)
+  | T 3 [ts; k; ds] => WorldT (map dec_term (kids ts)) (dec_q k) (map (fun d => Z.to_nat (tag d)) (kids ds))
+  | T 4 [c; a] => Guard (dec_q c) (dec_expr a)
   | T _ (T j _ :: _) => PixT (Z.to_nat j)
   | T _ [] => PixT 0
   end.
